@@ -98,6 +98,31 @@ pub fn run(line: &str) -> String {
     let (kind, Ok(n), Ok(seed)) = (f[0], f[1].parse::<usize>(), f[2].parse::<u64>()) else {
         return "bad-case".into();
     };
+    if kind == "deepsel" {
+        // deeply nested / very long selector strings: a Selector or a SelectorError, never stack exhaustion
+        let k = n.min(200_000);
+        let shapes = [
+            format!("{}a{}", ":not(".repeat(k), ")".repeat(k)),
+            format!("a{}", ":not(b)".repeat(k)),
+            format!("a{}", " > b".repeat(k)),
+            format!("a{}", " b".repeat(k)),
+            format!("a{}", ", b".repeat(k.min(20_000))),
+            format!("a{}", "[x=y]".repeat(k)),
+            format!("a{}", ".c".repeat(k)),
+            format!("a:nth-child({}1)", "1".repeat(k.min(5000))),
+            format!("{}a", "(".repeat(k)),
+            format!("a[x=\"{}\"]", "v".repeat(k)),
+        ];
+        let mut res = String::new();
+        let only: Option<usize> = std::env::var("PATHO_SHAPE").ok().and_then(|v| v.parse().ok());
+        for (i, sh) in shapes.iter().enumerate() {
+            if only.is_some_and(|o| o != i) {
+                continue;
+            }
+            res.push(if sh.parse::<Selector>().is_ok() { 'o' } else { 'e' });
+        }
+        return format!("deepsel {n} {res}");
+    }
     if kind == "selfuzz" {
         // random selector strings and API strings: a Selector or a SelectorError, never a panic
         let bytes = build("rand", n.min(200), seed);
